@@ -355,7 +355,7 @@ class _InMemoryBackend(backend.Backend):
       if early_stopping_policy:
         if early_stopping_policy.dna_spec is None:
           early_stopping_policy.setup(dna_spec)
-        elif early_stopping_policy.dna_spec != dna_spec:
+        elif symbolic.ne(early_stopping_policy.dna_spec, dna_spec):
           raise ValueError(
               f'{early_stopping_policy!r} has been set up with a different '
               f'DNASpec. Existing: {early_stopping_policy.dna_spec!r}, '
